@@ -109,3 +109,37 @@ class Q:
         d = self.call(key)
         d.addBoth(self._fanout, key)
         return d
+
+
+_busy = set()
+
+
+def guarded_work(x):
+    # P7: the marker stays when work() raises
+    if id(x) in _busy:
+        raise ValueError('recursive')
+    _busy.add(id(x))
+    r = work(x)
+    _busy.remove(id(x))
+    return r
+
+
+def guarded_work_finally(x):
+    if id(x) in _busy:
+        raise ValueError('recursive')
+    _busy.add(id(x))
+    try:
+        return work(x)
+    finally:
+        _busy.remove(id(x))
+
+
+class Registered:
+    known = {}
+
+    def __init__(self, name, parts):
+        # P8: registered, then validated
+        self.known[name] = self
+        for x in parts:
+            if not isinstance(x, str):
+                raise TypeError(x)
